@@ -72,7 +72,44 @@ def _matches(entry, pid, sig):
 _MOD = None
 
 
+_COV_SEEN = set()
+
+
+def _cov_tracer(repo):
+    prefix = os.path.join(repo, "pycaption") + os.sep
+    new = set()
+
+    def local(frame, event, arg):
+        if event == "line":
+            key = (frame.f_code.co_filename, frame.f_lineno)
+            if key not in _COV_SEEN:
+                _COV_SEEN.add(key)
+                new.add(key)
+        return local
+
+    def tracer(frame, event, arg):
+        if frame.f_code.co_filename.startswith(prefix):
+            return local(frame, "line", arg) if event == "call" else local
+        return None
+    return tracer, new
+
+
 def _exec_one(inp):
+    if os.environ.get("VERIF_COV"):
+        # self-measurement only (tools/coverage.py): which lines of pycaption the inputs of a check reach
+        repo = os.path.realpath(os.environ.get("VERIF_REPO", "/repo"))
+        tracer, new = _cov_tracer(repo)
+        sys.settrace(tracer)
+        try:
+            rec = _exec_one_plain(inp)
+        finally:
+            sys.settrace(None)
+        rec["_cov"] = sorted([f[len(repo) + 1:], n] for f, n in new)
+        return rec
+    return _exec_one_plain(inp)
+
+
+def _exec_one_plain(inp):
     try:
         rec = _MOD.execute(inp)
         rec["id"] = inp["id"]
@@ -147,6 +184,13 @@ def run_check(mod, tier, seed, replay=None):
             raise tlc.MachineryError("harness crashed on input %s:\n%s" % (
                 json.dumps(by_id[crashed[0]["id"]])[:2000], crashed[0]["_crash"]))
         # pycaption itself raised where the harness expects none: there is no observation to judge
+        if os.environ.get("VERIF_COV"):
+            cov = set()
+            for r in records:
+                cov.update((f, n) for f, n in r.pop("_cov", []))
+            os.makedirs(os.path.join(ROOT, "build"), exist_ok=True)
+            with open(os.path.join(ROOT, "build", "cov-%s.json" % pid), "w") as f:
+                json.dump(sorted(cov), f)
         impl_raised = [r for r in records if r.get("_in_repo")]
         records = [r for r in records if "_crash" not in r]
         rec_by_id = {r["id"]: r for r in records}
